@@ -87,10 +87,25 @@ impl Ord for LocalSegment {
     fn cmp(&self, other: &Self) -> Ordering {
         match (self, other) {
             (LocalSegment::UInt(a), LocalSegment::UInt(b)) => a.cmp(b),
-            (LocalSegment::Str(a), LocalSegment::Str(b)) => a.to_lowercase().cmp(&b.to_lowercase()),
+            (LocalSegment::Str(a), LocalSegment::Str(b)) => compare_text_segments(a, b),
             (LocalSegment::UInt(_), LocalSegment::Str(_)) => Ordering::Less,
             (LocalSegment::Str(_), LocalSegment::UInt(_)) => Ordering::Greater,
         }
+    }
+}
+
+/// An all-digit text segment is a number too large for `LocalSegment::UInt` (the parser keeps it verbatim)
+fn is_numeric_text(segment: &str) -> bool {
+    !segment.is_empty() && segment.bytes().all(|c| c.is_ascii_digit())
+}
+
+// Text segments: numeric ones (see above, no leading zeros) compare by value and below alphabetic ones
+fn compare_text_segments(left: &str, right: &str) -> Ordering {
+    match (is_numeric_text(left), is_numeric_text(right)) {
+        (true, true) => left.len().cmp(&right.len()).then_with(|| left.cmp(right)),
+        (true, false) => Ordering::Less,
+        (false, true) => Ordering::Greater,
+        (false, false) => left.to_lowercase().cmp(&right.to_lowercase()),
     }
 }
 
